@@ -97,12 +97,35 @@ def natural(v: np.ndarray) -> np.ndarray:
     return v.copy()
 
 
+GRAM_PHASES = [[0, 0, 0, 0, 0, 0], [1, 2, 5, 0, 0, 0], [5, -5, 7, 6, 0, -4], [10, 10, 10, 10, 10, 10], [3, 1, 4, 1, 5, 9], [0, 0, 0, 7, -7, 7]]
+
+
+def gram_kets(n: int, r: float, pattern: int):
+    """n unit vectors in C^n whose pairwise overlaps all have modulus r, with relative phases pattern * pi/20 (None if not PSD).
+    Near r = (n-2)/(n-1) these sets sit on the boundary of antidistinguishability, and the phases decide on which side."""
+    ph = GRAM_PHASES[pattern]
+    G = np.eye(n, dtype=complex)
+    t = 0
+    for i in range(n):
+        for j in range(i + 1, n):
+            G[i, j] = r * np.exp(1j * np.pi * ph[t % len(ph)] / 20)
+            G[j, i] = np.conj(G[i, j])
+            t += 1
+    w, v = np.linalg.eigh(G)
+    if w.min() < 1e-9:
+        return None
+    S = (v * np.sqrt(w)) @ v.conj().T  # columns of the positive square root have Gram matrix G
+    return [S[:, k].copy() for k in range(n)]
+
+
 def build(case: dict):
     """-> (inputs for toqito in the requested form, harness density operators, kets or None, probs argument, weights)."""
+    if case.get("kind") == "gram":
+        case = dict(case, d=case["n"], keys=list(range(case["n"])))
     d, keys, kind, form = case["d"], case["keys"], case.get("kind", "ket"), case.get("form", "col")
     n = len(keys)
-    if kind == "ket":
-        kets = [catalog.ket(d, k) for k in keys]
+    if kind in ("ket", "gram"):
+        kets = gram_kets(case["n"], case["r"], case["pattern"]) if kind == "gram" else [catalog.ket(d, k) for k in keys]
         rhos = [sc.as_density(k) for k in kets]
         if form == "1d":
             inputs = [natural(k) for k in kets]
